@@ -328,7 +328,7 @@ def v1_certs(self):
 
 
 @contract("spsdk.utils.crypto.cert_blocks:CertBlockV1.export")
-def _(self: Union[CBV1(1, 1), CBV1(1, 4), CBV1(2, 2), CBV1(3, 3)]) -> bytes:
+def _(self: Union[CBV1(1, 1), CBV1(2, 2)]) -> bytes:
     # representation invariant kept by add_certificate: the header counts the certificates and the bytes of the table
     requires(self._header.cert_count == len(self._cert) and self._header.cert_table_length == sum([len(c._bytes) + 4 for c in self._cert]))
     let(m=len(self._cert))
